@@ -44,7 +44,8 @@ Pres(f, c, inp) == IF Producer(f, c) /\ inp = "valid" THEN PreStates ELSE {"empt
 Globs == {"", "-q", "-v", "-vv"}
 GlobsFor(inp, o, pr) == IF inp \in {"valid", "nonexistent"} /\ o = 0 /\ pr = "empty" THEN Globs ELSE {""}
 VariantsFor(k, inp) == IF inp = "flagviol" THEN 0..2 ELSE Variants(k)     \* all flag-violating shapes (one dimension, the other, both) in every tier
-InputsFor(c, k) == {inp \in Inputs : /\ (inp = "flagviol" => (HasFlagViol(k) /\ c = "validate"))
+\* (damage by table region applies to the container family only: mpq1 cases)
+InputsFor(c, k) == {inp \in Inputs \ RegionDamage : /\ (inp = "flagviol" => (HasFlagViol(k) /\ c = "validate"))
                                      /\ (inp = "flagged" => HasFlagged(k))}
 FmtCases == UNION {UNION {UNION {
                UNION {UNION {
